@@ -7,7 +7,10 @@ VERIF_REPO redirects it).  Everything table-like in the logic the property is an
                                             inner `except OSError`, whether the `else:` branch flushes after which methods
   * `_IncomingDataReader.readinto`          `read_bio.write_eof()` when the transport returned 0
   * `AsyncTLSStreamTransport.recv / recv_into`   the `except` clauses and their bodies (as `HStmt` trees)
-  * `AsyncTLSStreamTransport.aclose`        the guard of the unwrap, the swallowed classes, force-close on failure, final close
+  * `AsyncTLSStreamTransport.aclose`        the guard of the unwrap, the swallowed classes, force-close on failure, final close,
+                                            and whether the unwrap has the clause `except SSLError: with suppress(OSError): await
+                                            self.__flush_pending_writes()` (`acloseFlushesOnSslError`: both shapes are understood,
+                                            a tree without the clause is modelled as such)
   * `SSLStreamTransport.__init__`           the expression passed as `suppress_ragged_eofs=`
   * `SSLStreamTransport._try_ssl_method / recv_noblock / recv_noblock_into / close`
   * `TCPNetworkClient.__init__`, `AsyncTCPNetworkClient.__init__`   the `if isinstance(ssl, bool):` block
@@ -310,7 +313,9 @@ def build() -> tuple[str, dict[str, Any]]:
     # ---------------- aclose
     f = t.func("tls", "AsyncTLSStreamTransport", "aclose")
     aclose_swallow: list[type] = []
-    aclose_unwraps = aclose_guard = aclose_force = aclose_final = aclose_marks = False
+    aclose_flush_on: list[type] = []
+    aclose_flush_suppress: list[type] = []
+    aclose_unwraps = aclose_guard = aclose_force = aclose_final = aclose_marks = aclose_flush = False
     if f is not None:
         guard_if = next((n for n in ast.walk(f) if isinstance(n, ast.If) and "unwrap" in ast.unparse(n)
                          and "_standard_compatible" in ast.unparse(n.test)), None)
@@ -318,8 +323,26 @@ def build() -> tuple[str, dict[str, Any]]:
             if isinstance(n, ast.Try) and len(n.body) == 1 and \
                     ast.unparse(n.body[0]) == "await self._retry_ssl_method(self._ssl_object.unwrap)":
                 aclose_unwraps = True
-                if len(n.handlers) == 1 and _calls(n.handlers[0].body) == ["pass"] and not n.finalbody:
-                    aclose_swallow = t.resolve(n.handlers[0].type)
+                # two shapes are understood:
+                #   except OSError: pass
+                # and (the close_notify produced by a FAILING unwrap() is flushed before the error is dropped)
+                #   except SSLError:
+                #       with contextlib.suppress(OSError):
+                #           await self.__flush_pending_writes()
+                #   except OSError: pass
+                hs = list(n.handlers)
+                if len(hs) == 2 and not n.finalbody and not n.orelse and _calls(hs[1].body) == ["pass"]:
+                    fl = _flush_clause(hs[0])
+                    if fl is None or not helper_ok:
+                        t.problems.append("aclose: first handler around the unwrap is not "
+                                          "`with contextlib.suppress(<classes>): await self.__flush_pending_writes()`")
+                    else:
+                        aclose_flush = True
+                        aclose_flush_on = t.resolve(hs[0].type)
+                        aclose_flush_suppress = t.resolve(fl)
+                    aclose_swallow = t.resolve(hs[1].type)
+                elif len(hs) == 1 and _calls(hs[0].body) == ["pass"] and not n.finalbody and not n.orelse:
+                    aclose_swallow = t.resolve(hs[0].type)
                 else:
                     t.problems.append("aclose: unexpected handlers around the unwrap")
         if guard_if is not None:
@@ -338,7 +361,8 @@ def build() -> tuple[str, dict[str, Any]]:
         withs = [n for n in ast.walk(f) if isinstance(n, ast.With) and "ExitStack" in ast.unparse(n.items[0])]
         if withs:
             aclose_final = ast.unparse(withs[0].body[-1]) == "await self._transport.aclose()"
-    info["aclose"] = dict(unwraps=aclose_unwraps, guard=aclose_guard, force=aclose_force, final=aclose_final, marks=aclose_marks)
+    info["aclose"] = dict(unwraps=aclose_unwraps, guard=aclose_guard, force=aclose_force, final=aclose_final, marks=aclose_marks,
+                          flushes_on_ssl_error=aclose_flush)
 
     # ---------------- blocking transport
     f = t.func("socket", "SSLStreamTransport", "__init__")
@@ -471,6 +495,9 @@ def build() -> tuple[str, dict[str, Any]]:
     L.append(f"  recvClauses := {recv_cl}")
     L.append(f"  recvIntoClauses := {recv_into_cl}")
     L.append("  acloseSwallow := [" + ", ".join("." + lname(c) for c in aclose_swallow) + "]")
+    L.append(f"  acloseFlushesOnSslError := {str(aclose_flush).lower()}")
+    L.append("  acloseFlushOn := [" + ", ".join("." + lname(c) for c in aclose_flush_on) + "]")
+    L.append("  acloseFlushSuppress := [" + ", ".join("." + lname(c) for c in aclose_flush_suppress) + "]")
     L.append(f"  acloseUnwraps := {str(aclose_unwraps).lower()}")
     L.append(f"  acloseGuardSC := {str(aclose_guard).lower()}")
     L.append(f"  acloseMarksEof := {str(aclose_marks).lower()}")
@@ -491,6 +518,22 @@ def build() -> tuple[str, dict[str, Any]]:
     info["problems"] = list(t.problems)
     info["classes"] = [qname(c) for c in classes]
     return "\n".join(L) + "\n", info
+
+
+def _flush_clause(h: ast.ExceptHandler) -> ast.AST | None:
+    """`with contextlib.suppress(<classes>): await self.__flush_pending_writes()` as the whole body of an except handler:
+    returns the class expression given to `suppress` (a Tuple node when several), None when the body is anything else"""
+    if len(h.body) != 1 or not isinstance(h.body[0], ast.With):
+        return None
+    w = h.body[0]
+    if len(w.items) != 1 or w.items[0].optional_vars is not None:
+        return None
+    ce = w.items[0].context_expr
+    if not (isinstance(ce, ast.Call) and ast.unparse(ce.func) == "contextlib.suppress" and ce.args and not ce.keywords):
+        return None
+    if _calls(w.body) != ["await self.__flush_pending_writes()"]:
+        return None
+    return ce.args[0] if len(ce.args) == 1 else ast.Tuple(elts=list(ce.args), ctx=ast.Load())
 
 
 def _lstr(s: str) -> str:
